@@ -172,7 +172,39 @@ wf:
       action: std.noop
 """
 
+# partial join with an inbound branch that can be cut off two hops upstream
+JOIN_PARTIAL_DEEP = """
+version: '2.0'
+wf:
+  tasks:
+    s:
+      action: std.noop
+      on-success:
+        - a
+        - b
+        - x: <% $.gx %>
+    a:
+      action: std.noop
+      on-success: j
+    b:
+      action: std.noop
+      on-success: j
+    x:
+      action: std.noop
+      on-success: y
+    y:
+      action: std.noop
+      on-success: j
+    j:
+      join: 2
+      action: std.noop
+      on-error: cleanup
+    cleanup:
+      action: std.noop
+"""
+
 JOIN_SHAPES = {
+    'join_partial_deep': (JOIN_PARTIAL_DEEP, ['j']),
     'fork_join': (FORK_JOIN, ['j']),
     'join_2_of_3_mixed': (JOIN_2_OF_3_MIXED, ['j']),
     'join_one': (JOIN_ONE, ['j']),
@@ -244,6 +276,7 @@ wf:
 """
 
 RUN_SHAPES = {
+    'join_partial_deep': JOIN_PARTIAL_DEEP,
     'fork_join': FORK_JOIN,
     'join_2_of_3_mixed': JOIN_2_OF_3_MIXED,
     'join_one': JOIN_ONE,
@@ -276,6 +309,10 @@ wf:
         z:
           k1: a1
           k2: a2
+        cfg:
+          db:
+            host: h0
+            port: p0
       on-success: [b, c]
     b:
       action: std.noop
@@ -283,6 +320,9 @@ wf:
         x: from_b
         z:
           k1: b1
+        cfg:
+          db:
+            host: h1
       on-success: j
     c:
       action: std.noop
@@ -298,6 +338,7 @@ wf:
         seen_x: <% $.x %>
         seen_y: <% $.y %>
         seen_z: <% $.z %>
+        seen_cfg: <% $.cfg %>
         seen_inp: <% $.inp %>
 """
 
